@@ -1,4 +1,5 @@
 import Proofs.Machine.Claims
+import Proofs.Machine.ColorOnly
 /-!
 Filtered timelines: generic frame reasoning for "rows of a given kind".
 
@@ -63,18 +64,20 @@ theorem drawRows_rejected (hpm : Minor p) (st : ElemStyle) {k : RowKind} (t r a 
 structure FV (p : RowKind → Bool) (m x : M) : Prop where
   body : ftl p x = ftl p m
   n : x.n = m.n
+  source : x.source = m.source
 
-theorem FV.refl (m : M) : FV p m m := ⟨rfl, rfl⟩
+theorem FV.refl (m : M) : FV p m m := ⟨rfl, rfl, rfl⟩
 
-theorem FV.of_tl {m x x' : M} (h : FV p m x) (ht : timeline x' = timeline x) (hn : x'.n = x.n) : FV p m x' :=
-  ⟨(ftl_congr ht).trans h.body, hn.trans h.n⟩
+theorem FV.of_tl {m x x' : M} (h : FV p m x) (ht : timeline x' = timeline x) (hn : x'.n = x.n)
+    (hsrc : x'.source = x.source := by rfl) : FV p m x' :=
+  ⟨(ftl_congr ht).trans h.body, hn.trans h.n, hsrc.trans h.source⟩
 
 theorem FV.emit {m x : M} (h : FV p m x) : FV p m (emit x) := h.of_tl (timeline_emit x) rfl
-theorem FV.flushMP {m x : M} (h : FV p m x) : FV p m (flushMP x) := h.of_tl (timeline_flushMP x) (flushMP_n x)
+theorem FV.flushMP {m x : M} (h : FV p m x) : FV p m (flushMP x) := h.of_tl (timeline_flushMP x) (flushMP_n x) (flushMP_source x)
 
 theorem FV.direct {m x : M} (h : FV p m x) {rows : List Row} (hr : ∀ r ∈ rows, p r.kind = false) :
     FV p m (direct x rows) :=
-  ⟨(ftl_direct x hr).trans h.body, (direct_n x rows).trans h.n⟩
+  ⟨(ftl_direct x hr).trans h.body, (direct_n x rows).trans h.n, (direct_source x rows).trans h.source⟩
 
 theorem FV.writeGeneric {m x : M} (hpm : Minor p) (h : FV p m x) (cfg : Cfg) (t r : Str) : FV p m (writeGeneric cfg x t r) := by
   unfold Machine.writeGeneric
@@ -128,6 +131,7 @@ structure FS (p : RowKind → Bool) (m m' : M) (b : Bool) : Prop where
   n : m'.n = m.n
   quiet : Quiet m.st m'.st
   body : ftl p m' = ftl p m
+  source : m'.source = m.source
 
 theorem FS.nomc {m m' : M} {b : Bool} (h : FS p m m' b) (hs : isMergeConflict m.st = false) :
     isMergeConflict m'.st = false := by
@@ -136,7 +140,7 @@ theorem FS.nomc {m m' : M} {b : Bool} (h : FS p m m' b) (hs : isMergeConflict m.
   · exact h1.1
 
 theorem FS.of_fv {m m' : M} {b : Bool} (h : FV p m m') (hq : Quiet m.st m'.st) : FS p m m' b :=
-  ⟨h.n, hq, h.body⟩
+  ⟨h.n, hq, h.body, h.source⟩
 
 -- handlers ------------------------------------------------------------------
 
@@ -216,12 +220,12 @@ theorem handleMinusLine_fs {cfg : Cfg} {m m' : M} {l : L} {b : Bool} (hpm : Mino
   · cases e; exact FS.pass hs
   · simp only [Except.ok.injEq] at e
     obtain rfl : m' = _ := (congrArg Prod.snd e).symm
-    have key : ∀ x : M, timeline x = timeline m → x.n = m.n → Quiet m.st x.st →
+    have key : ∀ x : M, timeline x = timeline m → x.n = m.n → x.source = m.source → Quiet m.st x.st →
         FS p m (shouldWriteGeneric cfg (flushMP x) l).2 b := by
-      intro x ht hn hx
-      obtain ⟨c2, hst2⟩ := shouldWriteGeneric_fv hpm cfg l (FV.flushMP ((FV.refl m).of_tl ht hn))
+      intro x ht hn hsx hx
+      obtain ⟨c2, hst2⟩ := shouldWriteGeneric_fv hpm cfg l (FV.flushMP ((FV.refl m).of_tl ht hn hsx))
       exact FS.of_fv c2 (by rw [hst2, flushMP_st]; exact hx)
-    refine key _ rfl rfl ?_
+    refine key _ rfl rfl rfl ?_
     dsimp only
     split
     · exact Or.inr ⟨rfl, rfl⟩
@@ -243,12 +247,12 @@ theorem handlePlusLine_fs {cfg : Cfg} {m m' : M} {l : L} {b : Bool} (hpm : Minor
   · cases e; exact FS.pass hs
   · simp only [Except.ok.injEq] at e
     obtain rfl : m' = _ := (congrArg Prod.snd e).symm
-    have key : ∀ x : M, timeline x = timeline m → x.n = m.n → Quiet m.st x.st →
+    have key : ∀ x : M, timeline x = timeline m → x.n = m.n → x.source = m.source → Quiet m.st x.st →
         FS p m (plusLineFinish cfg (flushMP x) l).2 b := by
-      intro x ht hn hx
-      obtain ⟨c2, hst2⟩ := plusLineFinish_fv hpm cfg l (FV.flushMP ((FV.refl m).of_tl ht hn))
+      intro x ht hn hsx hx
+      obtain ⟨c2, hst2⟩ := plusLineFinish_fv hpm cfg l (FV.flushMP ((FV.refl m).of_tl ht hn hsx))
       exact FS.of_fv c2 (by rw [hst2, flushMP_st]; exact hx)
-    exact key _ rfl rfl (Or.inl rfl)
+    exact key _ rfl rfl rfl (Or.inl rfl)
 
 /-- `handle_hunk_header_line`: writes nothing; when it claims the line the state becomes the pending
 hunk header for this very line -/
